@@ -372,14 +372,14 @@ def run(ctx):
         plans.append(dict(name="cover-n4", n=4, types=["p"], txs=[], depth=40, canon=True, cover=True, keep=5000, perms=2))
     else:
         plans.append(dict(name="all-d3", n=3, types=["p"], txs=["t1"], depth=3, canon=True, cover=False, keep=None, perms=4))
-        plans.append(dict(name="cover-n3-tx", n=3, types=["p"], txs=["t1"], depth=40, canon=True, cover=True, keep=60000, perms=3))
+        plans.append(dict(name="cover-n3-tx", n=3, types=["p"], txs=["t1"], depth=40, canon=True, cover=True, keep=45000, perms=3))
         plans.append(dict(name="cover-n3-pq", n=3, types=["p", "q"], txs=[], depth=40, canon=True, cover=True, keep=20000, perms=3))
         plans.append(dict(name="cover-n4", n=4, types=["p"], txs=[], depth=40, canon=True, cover=True, keep=40000, perms=3))
         plans.append(dict(name="sim-n5-p", n=5, types=["p"], txs=["t1"], depth=12, canon=False, cover=False,
-                          keep=None, perms=2, simulate="num=%d" % max(1, 1500 // W), emit_one_in=50,
+                          keep=None, perms=2, simulate="num=%d" % max(1, 900 // W), emit_one_in=50,
                           noops=True, extra=True, maxset=2, initres=4))
         plans.append(dict(name="sim-n4-pq", n=4, types=["p", "q"], txs=["t1"], depth=12, canon=False, cover=False,
-                          keep=None, perms=2, simulate="num=%d" % max(1, 1500 // W), emit_one_in=50,
+                          keep=None, perms=2, simulate="num=%d" % max(1, 900 // W), emit_one_in=50,
                           noops=True, extra=True, maxset=2, initres=3))
     batches = []
     samples = []
@@ -434,6 +434,7 @@ def run(ctx):
         "runs_on_real_code": stats.get("runs", 0),
         "samples": samples[:2],
         "exhaustive": exhaustive,
+        "exhaustive_batches": [b["name"] for b in batches if b["replayed"] == b["generated"] and not b["name"].startswith("sim")],
         "design_runs": design,
         "batches": batches,
         "mechanisms": stats,
